@@ -20,9 +20,9 @@ def run_entry(name, wt, scratch):
     else:
         meta = json.load(open(os.path.join(VERIF, "seeded", name, "meta.json")))
         prop, patch = meta["property"], os.path.join(VERIF, "seeded", name, "patch.diff")
-        if not prop.startswith("C"):
-            props = ["C19", "C20"]      # benign changes: both checks must stay quiet
-    sh("git -C %s checkout -- ." % wt)
+        if prop not in ("C19", "C20"):
+            props = ["C19", "C20"]      # benign changes (and the one judged out of scope): both checks must stay quiet
+    sh("git -C %s checkout -- . && git -C %s clean -fdq" % (wt, wt))
     if patch:
         a = sh("git -C %s apply %s" % (wt, patch))
         if a.returncode:
@@ -35,7 +35,7 @@ def run_entry(name, wt, scratch):
         classes = [l.strip()[len("violation class "):].split(": ")[0] for l in lines if l.startswith("violation class")]
         res[pr] = {"exit": r.returncode, "violation_lines": sum(1 for l in lines if l.startswith("VIOLATION ")),
                    "known_finding_lines": sum(1 for l in lines if l.startswith("KNOWN-FINDING")), "classes": classes[:8]}
-    sh("git -C %s checkout -- ." % wt)
+    sh("git -C %s checkout -- . && git -C %s clean -fdq" % (wt, wt))
     if props:
         return {"expect": "no alarm", "checks": res, "wall_s": round(time.time() - t)}
     return dict(res[prop], property=prop, wall_s=round(time.time() - t))
